@@ -3,8 +3,8 @@
    holds; the assignments of an entity), never on the name indexes.  Same shape as Spec.v:
    [wf] (the handle arguments denote entities of the right kind), [viol] (a documented precondition
    is violated, with the documented cause), [pre], [doc_cause], [StepSpec].
-   Payload geometry and attribute value checks are oracle arguments of the operations ([fits],
-   [verr]); the one geometric fact the model decides itself is "a multiplexer only fits a strictly
+   Payload geometry is an oracle argument of the operations ([fits]); the value check of an attribute
+   assignment is derived from the modelled kind and range of the attribute ([attr_verr]); the one geometric fact the model decides itself is "a multiplexer only fits a strictly
    larger group".  Definitions only. *)
 From Acme.C04 Require Export Spec RegInv.
 
@@ -14,6 +14,8 @@ Definition wf3 (s : state3) (o : op3) : Prop :=
   | L1 o => Spec.wf (base s) o
   | StdSetType sg _ _ | StdSetUnit sg _ => ∃ G, sigs s !! sg = Some G ∧ sg_kind G = SStd
   | EnumSetEnum sg _ _ => ∃ G, sigs s !! sg = Some G ∧ sg_kind G = SEnum
+  | Assign _ oa _ => ∀ a, oa = Some a → is_Some (attrs s !! a)
+  | AttrClone a => is_Some (attrs s !! a)
   | _ => True
   end.
 
@@ -23,8 +25,11 @@ Definition viol3 (s : state3) (o : op3) (cw : cause * wrap) : Prop :=
   | NewStdSignal oh | NewEnumSignal oh => oh = None ∧ cw = (Nil, WArgument)
   | StdSetType _ oh fits | EnumSetEnum _ oh fits =>
       (oh = None ∧ cw = (Nil, WArgument)) ∨ (is_Some oh ∧ fits = false ∧ cw = (Layout, WNone))
-  | Assign _ oa verr =>
-      (oa = None ∧ cw = (Nil, WArgument)) ∨ (is_Some oa ∧ ∃ c, verr = Some c ∧ cw = (c, WAttributeValue))
+  | Assign _ oa v =>
+      (* nil attribute; or the value does not have the type of the attribute (InvalidType), lies outside
+         its range (OutOfBounds), is not one of the values of an enum attribute (NotFound): attr_verr *)
+      (oa = None ∧ cw = (Nil, WArgument)) ∨
+      (∃ a k c, oa = Some a ∧ attrs s !! a = Some k ∧ attr_verr k v = Some c ∧ cw = (c, WAttributeValue))
   | RemoveAssign ent key => key ∉ refs_of (assigns s) ent ∧ cw = (NotFound, WNone)
   | _ => False
   end.
